@@ -1227,9 +1227,12 @@ void gen_c19(Gen &g) {
   }
   int ncalls = (int)r.range(1, 5);
   for (int i = 0; i < ncalls; i++) {
-    if (i > 0 || r.chance(1, 3)) {
+    // where the call starts: at 0, at an explicitly chosen offset (the file entry points honour it like the in-memory
+    // ones; skipped by the runner when a library-managed buffer has nothing there yet), or right behind the previous call
+    unsigned ow = (unsigned)r.below(8);
+    if (i == 0 ? ow < 3 : ow < 6) {
       Op so = g.mk(OP_OFFSET, 0);
-      so.k = (i == 0 || r.coin()) ? 0 : 0;
+      so.k = ow % 3 == 0 ? 0 : ow % 3 == 1 ? (long)r.range(1, 200) : (r.coin() ? 4096 * r.range(1, 3) + r.range(-20, 0) : (long)r.range(201, 9000));
       t.ops.push_back(so);
     }
     unsigned w = (unsigned)r.below(20);
